@@ -262,18 +262,18 @@ Section Rescan.
     unfold pscan. destruct (SP.p_scan isln lower_rune tops true (64 :: x ++ f)) as [[pt pk] pr] eqn:Ep.
     destruct Href as (Et & Ek & _). subst pt pk.
     (* which branch of p_scan produced an IDENTIFIER? only scanIdentifier *)
-    cbn [SP.p_scan] in Ep. change (64 =? S.r_at) with true in Ep. cbv iota in Ep.
+    revert Ep. cbn [SP.p_scan]. change (64 =? S.r_at) with true. cbv iota.
     destruct (x ++ f) as [|d r'] eqn:Exf.
-    { unfold SP.p_scan_body in Ep. inversion Ep. }
+    { unfold SP.p_scan_body. intros Ep. inversion Ep. }
     destruct (d =? S.r_lparen).
-    { unfold SP.p_scan_expr in Ep. destruct (SP.p_expr SP.MNorm 1 r') as [[o p] k]. destruct (Nat.eqb p 0); inversion Ep. }
-    destruct (d =? S.r_at); [unfold SP.p_scan_body in Ep; inversion Ep|].
-    destruct (S.is_name_char isln d); [|unfold SP.p_scan_body in Ep; inversion Ep].
-    unfold SP.p_scan_ident in Ep.
+    { unfold SP.p_scan_expr. destruct (SP.p_expr SP.MNorm 1 r') as [[o p] k]. destruct (Nat.eqb p 0); intros Ep; inversion Ep. }
+    destruct (d =? S.r_at); [unfold SP.p_scan_body; intros Ep; inversion Ep|].
+    destruct (S.is_name_char isln d); [|unfold SP.p_scan_body; intros Ep; inversion Ep].
+    unfold SP.p_scan_ident.
     pose proof (SP.ident_spec isln isln_at (d :: r') [] []) as Hspec.
     destruct (SP.p_ident isln (d :: r') [] []) as [[ident top] k].
     destruct Hspec as (idp & Hb & Hw & _). cbn [app] in Hb. subst ident.
-    destruct (SP.allowed tops (map lower_rune (if S.text_eqb top [] then idp else top))); inversion Ep; subst.
+    cbv zeta. match goal with |- (if ?c then _ else _) = _ -> _ => destruct c end; intros Ep; inversion Ep; subst.
     rewrite <- Exf in Hw. apply app_inv_head in Hw. subst. reflexivity.
   Qed.
 
